@@ -150,7 +150,7 @@ func runC15(c *Ctx) {
 	checkFloatDigits(c, "R15i")
 	c.Rule("R15j", ruleTextIntParserGuard, 1)
 	checkIntParserGuard(c, "R15j")
-	c.Rule("R15q", ruleTextFKSides, 2)
+	c.Rule("R15q", ruleTextFKSides, 1)
 	checkFKSides(c, "R15q")
 	c.Rule("R15r", ruleTextArrayKept, 3)
 	checkArrayKept(c, "R15r")
